@@ -193,6 +193,10 @@ func (g *gen) etag() string {
 		}
 	}
 	s := sb.String()
+	if g.chance(12) {
+		s = g.pick([]string{`W/"abc"`, `W/abc`, "  lead", "trail  ", " ", "a  b", "\t", "*"})
+		g.feat("etag:boundary-form")
+	}
 	if g.chance(10) {
 		// a tag that is itself a quoted string: quoting or unquoting once too
 		// often (or too seldom) shows
@@ -218,6 +222,9 @@ func (g *gen) instant() time.Time {
 	if g.chance(6) {
 		g.feat("mtime:unset")
 		return time.Time{}
+	}
+	if g.chance(6) {
+		return g.boundaryInstant()
 	}
 	var sec int64
 	switch g.r.Intn(8) {
@@ -254,6 +261,52 @@ func (g *gen) instant() time.Time {
 		g.feat("mtime:zone-east")
 	}
 	return time.Unix(sec, nsec).In(loc)
+}
+
+// boundaryInstant: the values at which "no time" and "a time" are easily
+// confused, and the ends of what an HTTP-date can carry.
+func (g *gen) boundaryInstant() time.Time {
+	zone := func(t time.Time) time.Time {
+		switch g.r.Intn(4) {
+		case 0:
+			g.feat("mtime:zone-east")
+			return t.In(time.FixedZone("", (1+g.r.Intn(14*4))*900))
+		case 1:
+			g.feat("mtime:zone-west")
+			return t.In(time.FixedZone("", -(1+g.r.Intn(12*4))*900))
+		}
+		g.feat("mtime:utc")
+		return t.UTC()
+	}
+	switch g.r.Intn(10) {
+	case 0, 1, 2:
+		g.feat("mtime:unix-epoch-exactly")
+		return zone(time.Unix(0, 0))
+	case 3:
+		g.feat("mtime:epoch+1s")
+		return zone(time.Unix(1, 0))
+	case 4:
+		g.feat("mtime:epoch-1s")
+		return zone(time.Unix(-1, 0))
+	case 5:
+		g.feat("mtime:epoch+fraction")
+		g.feat("mtime:sub-second")
+		return zone(time.Unix(0, 1+g.r.Int63n(999999999)))
+	case 6:
+		g.feat("mtime:epoch-fraction")
+		g.feat("mtime:sub-second")
+		return zone(time.Unix(-1, 1+g.r.Int63n(999999999)))
+	case 7:
+		// the first instants after Go's zero time (UTC: an earlier zone would
+		// leave the four-digit years an HTTP-date has)
+		g.feat("mtime:year-1")
+		return time.Date(1, 1, 1, 0, 0, 0, 0, time.UTC).Add(time.Duration(1+g.r.Int63n(3)) * time.Second)
+	case 8:
+		g.feat("mtime:year-9999")
+		return time.Date(9999, 12, 31, 23, 59, 59-g.r.Intn(3), 0, time.UTC)
+	}
+	g.feat("mtime:far-future")
+	return zone(time.Date(2300+g.r.Intn(3000), 6, 15, 12, 0, 0, 0, time.UTC)) // beyond what int64 nanoseconds since 1970 can hold
 }
 
 func (g *gen) maxSize() int64 {
@@ -379,7 +432,8 @@ func (g *gen) icalText(kind string) string {
 	return icalEscape(sb.String())
 }
 
-var icalParamValAtoms = []string{"Jane", "Doe", " ", ";", ":", ",", "é", "日本", "=", "'", "&", "<", "mailto:a@example.org", "\\", "^n"}
+var icalParamValAtoms = []string{"Jane", "Doe", " ", ";", ":", ",", "é", "日本", "=", "'", "&", "<", "mailto:a@example.org", "\\", "^n",
+	"\r", "a\rb", "\t", "]]>", "<![CDATA[", "&amp;", "&#xD;", "\u0085", "\u2028", "\ufffd", "𝒳", " lead", "trail ", ">"}
 
 func (g *gen) icalParamValue() string {
 	var sb strings.Builder
@@ -388,6 +442,12 @@ func (g *gen) icalParamValue() string {
 		a := g.pick(icalParamValAtoms)
 		if strings.ContainsAny(a, ";:,") {
 			g.feat("ical:quoted-param")
+		}
+		if strings.Contains(a, "\r") {
+			g.feat("ical:lone-CR-in-param")
+		}
+		if strings.ContainsAny(a, "<>&]\t\u0085\u2028\ufffd𝒳") {
+			g.feat("ical:xml-special-in-param")
 		}
 		sb.WriteString(a)
 	}
@@ -559,13 +619,17 @@ func (g *gen) calendar() *nComp {
 
 // ---- vCard -----------------------------------------------------------------
 
-var vcardTextAtoms = []string{"John", "Doe", " ", ",", ";", "\\", "\n", ":", "\"", "é", "日本語", "😀", "&", "<", ">", "]]>", "\t", "\\n", "\\,", "%", "."}
+var vcardTextAtoms = []string{"John", "Doe", " ", ",", ";", "\\", "\n", ":", "\"", "é", "日本語", "😀", "&", "<", ">", "]]>", "\t", "\\n", "\\,", "%", ".",
+	"\r", "a\rb", "x\r\ry", "<![CDATA[", "&amp;", "&#13;", "&#xD;", "\u0085", "\u2028", "\ufffd", "𝒳", "\U0001F600", "\n\n", " \n ", "<!-- x -->", "?>"}
 
 func (g *gen) vcardText() string {
 	var sb strings.Builder
 	n := 1 + g.r.Intn(7)
 	for i := 0; i < n; i++ {
 		a := g.pick(vcardTextAtoms)
+		if strings.Contains(a, "\r") {
+			g.feat("vcard:lone-CR")
+		}
 		switch {
 		case strings.ContainsAny(a, ",\\\n"):
 			g.feat("vcard:escaped-text")
@@ -650,7 +714,7 @@ func (g *gen) card() nCard {
 		g.feat("vcard:long-line")
 	}
 	if g.chance(5) {
-		c["X-"+g.pick([]string{"FOO", "SOCIALPROFILE"})] = []nField{{Value: g.vcardText(), Params: map[string][]string{"X-P": {g.pick([]string{"v", "é", "a b", "x=y"})}}}}
+		c["X-"+g.pick([]string{"FOO", "SOCIALPROFILE"})] = []nField{{Value: g.vcardText(), Params: map[string][]string{"X-P": {g.pick([]string{"v", "é", "a b", "x=y", "a\rb", "\t", "]]>", "<![CDATA[x", "&amp;", "<", "\u0085", "\u2028", "\ufffd", "𝒳", " lead", "trail "})}}}}
 	}
 	if g.chance(25) {
 		// something the codec is known to change: must be excluded by the
